@@ -623,6 +623,35 @@ func Run(cfg *hx.Config) error {
 			}
 		}
 	}
+	// many lines of one configuration: n = 63..130 scenes (lines 0..n-1), the scene on line j ends
+	// (j around 0, 31, 62..66, n-2, n-1), then creations: each must take the least free line
+	many := []int{65, 66, 70}
+	if cfg.Tier == "thorough" {
+		many = []int{31, 32, 33, 63, 64, 65, 66, 67, 70, 100, 127, 128, 129, 130, 200}
+	}
+	for _, n := range many {
+		seen := map[int]bool{}
+		js := []int{0, 63, 64, 65, n - 2}
+		if cfg.Tier == "thorough" {
+			js = []int{0, 31, 62, 63, 64, 65, 66, n / 2, n - 2, n - 1}
+		}
+		for _, j := range js {
+			if j < 0 || j >= n || seen[j] {
+				continue
+			}
+			seen[j] = true
+			ops := []hx.T{hx.C("ORefresh", int64(1), int64(0)), hx.C("ORefresh", int64(2), int64(0))}
+			for l := 0; l < n; l++ {
+				ops = append(ops, hx.C("OCreate", int64(100), int64(l+1), int64(1+l%2)))
+			}
+			ops = append(ops, hx.C("OEnd", int64(j+1)), hx.C("OCreate", int64(100), int64(n+1), int64(1)), hx.C("OCreate", int64(100), int64(n+2), int64(2)), hx.C("OReq", int64(100)))
+			if j+2 < n {
+				ops = append(ops, hx.C("OEnd", int64(j+3)), hx.C("OEnd", int64(n+1)), hx.C("OCreate", int64(100), int64(n+3), int64(1)), hx.C("OCreate", int64(100), int64(n+4), int64(1)))
+			}
+			obs, nt := Exec(ops)
+			emit(hx.Case{Kind: "many-lines", Ops: ops, Obs: obs, Nontrivial: nt, Tags: []string{"many-lines"}})
+		}
+	}
 	// busy-weight grid: two or three working services with scene counts around every kink of
 	// GetBusyWeight (1000 scenes = "ratio 1", 5000 = the cap), then an allocation: it must land on
 	// the least busy one
